@@ -236,6 +236,16 @@ fn single_edits(doc: &[u8], toks: &[Vec<u8>], f: &mut dyn FnMut(Vec<u8>)) {
     }
 }
 
+/// the path of this binary for child processes; when the file was replaced by a rebuild while this process runs, Linux
+/// reports the old path with the suffix " (deleted)" - the new file at the same path is the right one then
+fn own_executable() -> std::path::PathBuf {
+    let p = std::env::current_exe().unwrap_or_else(|_| std::path::PathBuf::from(format!("{VERIF_DIR}/.target/release/vcheck")));
+    match p.to_str().and_then(|s| s.strip_suffix(" (deleted)")) {
+        Some(s) => std::path::PathBuf::from(s),
+        None => p,
+    }
+}
+
 fn nest_doc(kind: &str, depth: usize) -> Vec<u8> {
     let ro = root_open("AUTOSAR_00050.xsd");
     let mut s = String::with_capacity(depth * 80);
@@ -280,7 +290,7 @@ pub fn child_nest(args: &[String]) -> i32 {
 }
 
 fn nesting_ladder(ctx: &Ctx, max_pow: u32) {
-    let exe = std::env::current_exe().unwrap();
+    let exe = own_executable();
     for kind in ["packages", "mixed"] {
         let mut steps: Vec<usize> = vec![];
         for i in 1..=max_pow {
@@ -461,7 +471,7 @@ pub fn run(tier: Tier) -> i32 {
 pub fn replay(v: &Value) -> i32 {
     let w = &v["witness"];
     if w["kind"] == "nest" {
-        let exe = std::env::current_exe().unwrap();
+        let exe = own_executable();
         let out = std::process::Command::new(exe)
             .args(["child", "c02-nest", w["nest_kind"].as_str().unwrap(), &w["depth"].to_string()])
             .status()
